@@ -14,7 +14,9 @@ CHECK = {
                     'the first resize of a table names a function explicitly (the default cstl_hash_mul cannot be logged)',
                     'relocations are recognised as consultations of the new geometry for keys of live elements'],
     'runs': [
-        {'harness': 'hash', 'mode': 'incr', 'sources': ['harness/hash.c'] + EX, 'configs': both(['dbg-asan'], ['dbg-asan', 'rel-asan', 'rel-plain']),},
+        {'harness': 'hash', 'mode': 'incr', 'sources': ['harness/hash.c'] + EX, 'configs': both(['dbg-asan', 'rel-asan'], ['dbg-asan', 'rel-asan', 'rel-plain']),
+         # quick: the release build (what is shipped: -O2 -DNDEBUG) on the closure scopes and the first random histories
+         'max_cases': {'rel-asan': {'quick': 260}}},
     ],
 }
 
